@@ -1,6 +1,6 @@
 """C18 — at most one writer per index; the lock follows the writer's lifetime (typestate)."""
 from ..model import (Ev, must_pass, must_precede, trace_through, trace_back, op_local, op_place, place_local,
-                     is_bare, provenance, place_proj, proj_fields)
+                     is_bare, provenance, place_proj, proj_fields, ok_continuation_events)
 from ..rules import (rule_precede, rule_must_pass, rule_result_checked, rule_who_may_call, get_body, family,
                      calls_to, site, short, rule_between, return_defs, guard_live_at, locals_of_type)
 
@@ -25,6 +25,37 @@ def run(rep, prog, tier):
     r4(rep, prog)
     r5(rep, prog)
     r6(rep, prog)
+    r7(rep, prog)
+
+
+def r7(rep, prog):
+    """only the owner of a lock file removes it"""
+    R = "C18-R7"
+    rep.rule(R, "only the owner removes the lock file: in the default locking module (directory::directory) Directory::delete is called by DirectoryLockGuard's Drop (the holder releases its own lock); any other delete there — e.g. a clean-up in try_acquire_lock — must be dominated by the Ok continuation of this function's own open_write (the file it removes is the one it has just created). A failed attempt that deletes the path removes the lock file of the live writer, and the next attempt succeeds while that writer is alive")
+    dele = family(prog, D + "delete")
+    ow = family(prog, D + "open_write")
+    n = 0
+    for fid in sorted(prog.bodies):
+        if not (fid.startswith("tantivy::directory::directory::") or fid.startswith("<tantivy::directory::directory::")):
+            continue
+        b = prog.bodies[fid]
+        for bi, t in calls_to(prog, b, dele):
+            n += 1
+            if "DirectoryLockGuard as core::ops::drop::Drop>::drop" in fid:
+                rep.ok(R, "%s deletes the lock file it holds" % short(fid), "release by the owner", site=site(b, bi))
+                continue
+            opens = calls_to(prog, b, ow)
+            okk = False
+            if opens:
+                evs = []
+                for ob, ot in opens:
+                    e, chk = ok_continuation_events(b, ob)
+                    evs += list(e)
+                okk = bool(evs) and not must_precede(b, evs, [Ev(bi, "term")])
+            rep.check(okk, R, "%s deletes a lock path only after it created the file itself" % short(fid), "dominated by the Ok continuation of its own open_write",
+                      "`%s` can delete the lock path on a path where its own open_write did not succeed: a failed attempt to take the lock removes the lock file of the writer that holds it, "
+                      "and the next attempt gets a second writer" % fid, site=site(b, bi))
+    rep.floor(R, "Directory::delete call sites in the default locking module", n, 1)
 
 
 def r6(rep, prog):
